@@ -28,7 +28,7 @@ Inductive insn :=
   | IStoreName (k : nkind) (s : string)   (* STORE_GLOBAL/FAST/NAME/DEREF, argval *)
   | ILoadAttr (meth : bool) (s : string)  (* LOAD_ATTR (3.12: meth = low bit of the arg), LOAD_METHOD, LOOKUP_METHOD *)
   | IStoreAttr (s : string)
-  | ILoadConst (r : string)               (* argrepr *)
+  | ILoadConst (r : string)               (* "..." if argval is Ellipsis else argrepr *)
   | IBinarySubscr | IStoreSubscr
   | IBinarySlice (a3 : bool) | IStoreSlice (a3 : bool)   (* a3: insn.arg == 3 *)
   | IUnpackSeq (n : nat)
@@ -58,6 +58,17 @@ Definition format_tuple (values : list string) : string :=
   | _ => "(" @@ join ", " values @@ ")"
   end.
 
+(* LOAD_ATTR / LOAD_METHOD / STORE_ATTR: `if obj[:1].isdigit() or obj[:1] == "-": obj = f"({obj})"`
+   (attribute of a numeric constant: `1.x` would not parse).  Text reaching this test is ASCII-encoded
+   by the harness, so isdigit is the ASCII digit test. *)
+Definition num_start (s : string) : bool :=
+  match s with
+  | String c _ =>
+      let n := nat_of_ascii c in (Nat.leb 48 n && Nat.leb n 57) || Nat.eqb n 45
+  | EmptyString => false
+  end.
+Definition attr_obj (o : string) : string := if num_start o then "(" @@ o @@ ")" else o.
+
 (* the python list `stack` is kept reversed: head = top of stack.
    [finish]: after a STORE_* / UNPACK_* instruction the loop breaks; len(stack) must be 1 *)
 Definition finish (stack : list string) (rest : list insn) : res (string * list insn) :=
@@ -78,9 +89,9 @@ Fixpoint nt (fuel : nat) (ins : list insn) (stack : list string) {struct fuel}
       | ILoad _ s => nt f rest (s :: stack)
       | IStoreName _ s => finish (s :: stack) rest
       | ILoadAttr _ a =>
-          match stack with o :: st => nt f rest ((o @@ "." @@ a) :: st) | [] => Err end
+          match stack with o :: st => nt f rest ((attr_obj o @@ "." @@ a) :: st) | [] => Err end
       | IStoreAttr a =>
-          match stack with o :: st => finish ((o @@ "." @@ a) :: st) rest | [] => Err end
+          match stack with o :: st => finish ((attr_obj o @@ "." @@ a) :: st) rest | [] => Err end
       | ILoadConst r => nt f rest (r :: stack)
       | IBinarySubscr =>
           match stack with
@@ -181,7 +192,7 @@ Definition describe (ins : list insn) : dres :=
    [ECallX]: call with keyword (tag 3) or starred (tag 4) arguments. *)
 Inductive expr :=
   | EName (k : nkind) (s : string)
-  | EConst (r : string)                          (* repr of the constant *)
+  | EConst (r : string)                          (* repr of the constant; "..." for Ellipsis *)
   | EAttr (e : expr) (a : string)
   | ESubscr (e i : expr)
   | ESlice (e lo hi : expr)                      (* e[lo:hi]; an omitted bound is EConst "None" *)
@@ -267,15 +278,24 @@ Definition paren_tuple (l : list string) : string :=
   | _ => "(" @@ commas l @@ ")"
   end.
 
+(* the base of an attribute reference must be a primary: text that starts with a digit or a minus
+   sign (a numeric literal) is parenthesised *)
+Definition starts_numeric (s : string) : bool :=
+  match s with
+  | String c _ => existsb (Ascii.eqb c) ["0"; "1"; "2"; "3"; "4"; "5"; "6"; "7"; "8"; "9"; "-"]%char
+  | EmptyString => false
+  end.
+Definition primary (s : string) : string := if starts_numeric s then "(" @@ s @@ ")" else s.
+
 Fixpoint render_expr (e : expr) : string :=
   match e with
   | EName _ s => s
   | EConst r => r
-  | EAttr e a => render_expr e @@ "." @@ a
+  | EAttr e a => primary (render_expr e) @@ "." @@ a
   | ESubscr e i => render_expr e @@ "[" @@ render_expr i @@ "]"
   | ESlice e lo hi => render_expr e @@ "[" @@ render_expr lo @@ ":" @@ render_expr hi @@ "]"
   | ECall f args => render_expr f @@ "(" @@ commas (map render_expr args) @@ ")"
-  | EMCall o m args => render_expr o @@ "." @@ m @@ "(" @@ commas (map render_expr args) @@ ")"
+  | EMCall o m args => primary (render_expr o) @@ "." @@ m @@ "(" @@ commas (map render_expr args) @@ ")"
   | EOp _ _ => "?"
   | EWalrus _ _ _ => "?"
   | ECallX _ _ _ => "?"
@@ -284,7 +304,7 @@ Fixpoint render_expr (e : expr) : string :=
 Fixpoint render_target (t : target) : string :=
   match t with
   | TName _ s => s
-  | TAttr e a => render_expr e @@ "." @@ a
+  | TAttr e a => primary (render_expr e) @@ "." @@ a
   | TSubscr e i => render_expr e @@ "[" @@ render_expr i @@ "]"
   | TSlice e lo hi => render_expr e @@ "[" @@ render_expr lo @@ ":" @@ render_expr hi @@ "]"
   | TTuple ts => paren_tuple (map render_target ts)
